@@ -116,6 +116,38 @@ func (c *Ctx) Rng(idx int, stream string) *rand.Rand {
 	return rand.New(rand.NewPCG(uint64(c.Seed)*0x9E3779B97F4A7C15+1, h.Sum64()))
 }
 
+// case context: a property may record what it is about to hand to the system under test; when
+// the case panics, the record is attached to the violation so that the failing input is known.
+var (
+	ctxMu   sync.Mutex
+	caseCtx map[string]any
+)
+
+// SetContext replaces the context of the running case (workers run one case at a time).
+func SetContext(m map[string]any) {
+	ctxMu.Lock()
+	caseCtx = m
+	ctxMu.Unlock()
+}
+
+// AddContext adds one entry.
+func AddContext(k string, v any) {
+	ctxMu.Lock()
+	if caseCtx == nil {
+		caseCtx = map[string]any{}
+	}
+	caseCtx[k] = v
+	ctxMu.Unlock()
+}
+
+func takeContext() map[string]any {
+	ctxMu.Lock()
+	defer ctxMu.Unlock()
+	m := caseCtx
+	caseCtx = nil
+	return m
+}
+
 var (
 	regMu sync.Mutex
 	reg   = map[string]Property{}
